@@ -5,7 +5,7 @@ ID = "C05"
 CRATE = "c05"
 COQ_DIR = "C05"
 COQ_DEPS = []
-PROFILES = ["debug"]
+PROFILES = ["debug", "release"]
 CORR_IMPORT = "From RlibV Require Import C05.Model C05.Corr."
 AUDIT_IMPORT = ("From Coq Require Import List Arith NArith Bool.\nImport ListNotations.\n"
                 "From RlibV Require Import C05.Model C05.Spec C05.Corr C05.Properties.")
